@@ -162,8 +162,8 @@ def main(tier, seed):
     t0 = time.time()
     depth = 5 if tier == "quick" else 7
     hs = R.histories(depth)
-    # plus the disabled words that keep the autonomous / test selection bit set, one level shallower
-    hs = hs + [h for h in R.histories(depth - 1, alphabet="datxef", boot="datxef") if ("e" in h or "f" in h)]
+    # plus the disabled words that keep the autonomous / test selection bit set (quick: to 4 words, thorough: to 5)
+    hs = hs + [h for h in R.histories(4 if tier == "quick" else 5, alphabet="datxef", boot="datxef") if ("e" in h or "f" in h)]
     # plus long histories over every two-word alphabet (repeated periods, long alternations)
     seen_h = set(hs)
     hs = hs + [h for h in R.long_histories(8 if tier == "quick" else 11) if h not in seen_h]
